@@ -5,6 +5,7 @@ import (
 	"cmp"
 	"encoding/json"
 	"fmt"
+	"slices"
 	"testing"
 
 	"github.com/emirpasic/gods/v2/queues/priorityqueue"
@@ -65,6 +66,48 @@ type heap struct {
 	values func() []Item
 	iter   func() []Item
 	load   func([]byte) error
+	// rew walks ONE long-lived iterator (made when the container was made) after
+	// rewinding it: Begin()/First() "reset the iterator to its initial state" /
+	// move it to the first element, End()/Last() likewise from the other side, so a
+	// rewound iterator enumerates the current contents like a fresh one.
+	rew func(mode int) []Item
+}
+
+type revIter interface {
+	Next() bool
+	Prev() bool
+	Begin()
+	End()
+	First() bool
+	Last() bool
+	Value() Item
+}
+
+func rewound(it revIter) func(mode int) []Item {
+	return func(mode int) []Item {
+		var out []Item
+		switch mode % 4 {
+		case 0:
+			for it.Begin(); it.Next(); {
+				out = append(out, it.Value())
+			}
+		case 1:
+			for ok := it.First(); ok; ok = it.Next() {
+				out = append(out, it.Value())
+			}
+		case 2:
+			for it.End(); it.Prev(); {
+				out = append(out, it.Value())
+			}
+			slices.Reverse(out)
+		case 3:
+			for ok := it.Last(); ok; ok = it.Prev() {
+				out = append(out, it.Value())
+			}
+			slices.Reverse(out)
+		}
+		return out
+	}
 }
 
 func build(c Case) heap {
@@ -77,7 +120,7 @@ func build(c Case) heap {
 				out = append(out, it.Value())
 			}
 			return out
-		}, h.FromJSON}
+		}, h.FromJSON, rewound(h.Iterator())}
 	}
 	q := priorityqueue.NewWith(f)
 	return heap{func(is ...Item) {
@@ -90,7 +133,7 @@ func build(c Case) heap {
 			out = append(out, it.Value())
 		}
 		return out
-	}, q.FromJSON}
+	}, q.FromJSON, rewound(q.Iterator())}
 }
 
 func check(c Case) (pbt.Info, error) {
@@ -151,8 +194,8 @@ func check(c Case) (pbt.Info, error) {
 		if total > 48 && step%8 != 0 && what != "after drain" {
 			return nil // large heaps: the O(n^2) listing is checked every 8th step
 		}
-		for ni, xs := range [][]Item{h.values(), h.iter()} {
-			name := []string{"Values()", "iteration"}[ni]
+		for ni, xs := range [][]Item{h.values(), h.iter(), h.rew(step + 1)} {
+			name := []string{"Values()", "iteration", "iteration with the rewound long-lived iterator (" + []string{"Begin+Next", "First+Next", "End+Prev", "Last+Prev"}[(step+1)%4] + ")"}[ni]
 			if err := permutationOfModel(xs); err != nil {
 				return fmt.Errorf("step %d %s: %s %v", step, what, name, err)
 			}
